@@ -46,7 +46,7 @@ def val(t, v):
 M_ALL = {"i32": (1 << 32) - 1, "i64": (1 << 64) - 1}
 
 
-def grid_items(rng, npool, nrand, bitpos=True):
+def grid_items(rng, npool, nrand, bitpos=True, narrow=True):
     items = []
     for t, bits in (("i32", 32), ("i64", 64)):
         P = pool(bits, rng, npool, nrand)
@@ -83,7 +83,7 @@ def grid_items(rng, npool, nrand, bitpos=True):
         NB += [M_, 0, 1, 1 << (bits - 1), 3, (-3) & M_]
         NB = list(dict.fromkeys(NB))
         inP = set(P)
-        for o in IBIN + IREL:
+        for o in (IBIN + IREL if narrow else []):
             for a in NB:
                 for b in NB:
                     if not (a in inP and b in inP):
